@@ -410,12 +410,52 @@ def requests_for(rng, axis_ids, quick):
     return reqs
 
 
-def unknown_requests(rng, axis_ids):
-    bad = "zz-not-there"
-    k = rng.randint(0, len(axis_ids))
-    s = rng.sample(axis_ids, k) + [bad]
-    rng.shuffle(s)
-    return [s] if k else [[bad]]
+def unknown_candidates(axis_ids):
+    """unknown IDs whose TEXT is close to a stored one: (kind, base stored id, unknown id)"""
+    stored = set(axis_ids)
+    longest = max(axis_ids, key=len)
+    out = []
+
+    def add(kind, base, u):
+        if u and u not in stored and (kind, base, u) not in out:
+            out.append((kind, base, u))
+    for base in dict.fromkeys([longest, axis_ids[0], axis_ids[-1]]):
+        add("extend-digit", base, base + "0")
+        add("extend-blank", base, base + " ")
+        add("extend-letter", base, base + "b")
+        add("extend-long", base, base + "_b2" + "x" * len(longest))
+        add("prefix", base, base[:-1])
+        add("case", base, base.swapcase())
+        add("lead-blank", base, " " + base)
+        add("nul-tail", base, base + "\x00x")
+    add("far", longest, "zz-not-there")
+    return out
+
+
+def unknown_requests(rng, axis_ids, quick=True):
+    """each unknown ID alone, and mixed with the known IDs OTHER than the one it resembles (so that a
+    reader that truncates / strips / case-folds the request still finds as many IDs as were asked for)"""
+    cands = unknown_candidates(axis_ids)
+    if quick:
+        must = [c for c in cands if c[0] in ("extend-digit", "extend-long")][:2]
+        rest = [c for c in cands if c not in must]
+        rng.shuffle(rest)
+        cands = must + rest[:4]
+    reqs = []
+    for kind, base, u in cands:
+        others = [i for i in axis_ids if i != base]
+        forms = [[u]]
+        if others:
+            mixed = rng.sample(others, rng.randint(1, len(others))) + [u]
+            rng.shuffle(mixed)
+            forms.append(mixed)
+            forms.append(others + [u])
+        if quick:
+            forms = [forms[0], forms[-1]] if len(forms) > 1 else forms
+        for f in forms:
+            if f not in [r for _, r in reqs]:
+                reqs.append((kind, f))
+    return reqs
 
 
 def run_fixture(ctx, fx, rng, quick, tags=(), sers=MAIN_SERS, light=False):
@@ -435,11 +475,14 @@ def run_fixture(ctx, fx, rng, quick, tags=(), sers=MAIN_SERS, light=False):
                        form=rng.choice(["str", "handle", "lines"]), tags=tags)
             for ser in sers:
                 check_case(ctx, fx, "cmdjson", ids, axis, ser=ser, tags=tags)
-        for ids in unknown_requests(rng, axis_ids):
+        for kind, ids in unknown_requests(rng, axis_ids, quick):
+            utags = list(tags) + ["unknown-id", "unknown=" + kind]
+            ctx.count("unknown-kind=" + kind)
             for variant in ("h5", "h5nomd", "parseh5", "cmdh5"):
-                check_case(ctx, fx, variant, ids, axis, tags=list(tags) + ["unknown-id"])
-            check_case(ctx, fx, "cmdjson", ids, axis, ser=rng.choice(sers), tags=list(tags) + ["unknown-id"])
-            check_case(ctx, fx, "jsonparse", ids, axis, tags=list(tags) + ["unknown-id"])
+                check_case(ctx, fx, variant, ids, axis, how=rng.choice(["list", "tuple", "array"]) if variant == "h5"
+                           else "list", tags=utags)
+            check_case(ctx, fx, "cmdjson", ids, axis, ser=rng.choice(sers), tags=utags)
+            check_case(ctx, fx, "jsonparse", ids, axis, tags=utags)
         # a repeated requested ID: outside the quantifier, only the model agreement is checked
         if axis_ids and rng.random() < 0.5:
             rep = [axis_ids[0], axis_ids[0]] + axis_ids[1:2]
@@ -638,8 +681,14 @@ def run(ctx):
                             continue
                         check_case(ctx, fx, "cmdh5", ids, axis, cli=True, tags=["cli"])
                         check_case(ctx, fx, "cmdjson", ids, axis, cli=True, tags=["cli"])
-                        check_case(ctx, fx, "cmdh5", ids + ["zz-not-there"], axis, cli=True, tags=["cli", "unknown-id"])
-                        check_case(ctx, fx, "cmdjson", ids + ["zz-not-there"], axis, cli=True, tags=["cli", "unknown-id"])
+                        # the ids file is stripped line by line: only blank-free unknown IDs here
+                        base = max(axis_ids, key=len)
+                        for u in (base + "0", base + "_b2"):
+                            if u in axis_ids:
+                                continue
+                            req = [i for i in axis_ids if i != base and i == i.strip() and "\t" not in i] + [u]
+                            check_case(ctx, fx, "cmdh5", req, axis, cli=True, tags=["cli", "unknown-id"])
+                            check_case(ctx, fx, "cmdjson", req, axis, cli=True, tags=["cli", "unknown-id"])
                         ctx.count("cli")
             finally:
                 fx.close()
